@@ -15,7 +15,7 @@ import (
 func TestMain(m *testing.M) { hx.Main(m) }
 
 var rec = hx.NewRecorder("C19",
-	"a case is 1-2 collections with 2-4 initial fields (kinds drawn, counters and @default included) and a history of 4-24 operations: "+
+	"a case is 1-2 collections with 2-4 initial fields (kinds drawn, counters and @default included) and a history of 4-24 (thorough: 4-40) operations: "+
 		"create/update/delete through GraphQL under whatever version is active, PatchSchema add-field patches (field drawn from a pool of named kinds, "+
 		"setAsDefaultVersion true/false, so chains, branches, re-applied patches and rejected duplicates all occur), SetActiveSchemaVersion to any known version, "+
 		"and in 40% of the cases a second node that applies its own patches/switches and exchanges document heads in both directions; "+
@@ -99,7 +99,11 @@ func drawCase(t *rapid.T) Case {
 	}
 	c.Two = rapid.IntRange(0, 9).Draw(t, "two") < 4
 	c.Avoid = rapid.Bool().Draw(t, "avoid")
-	nops := rapid.IntRange(4, 24).Draw(t, "nops")
+	maxOps := 24
+	if hx.Thorough() {
+		maxOps = 40
+	}
+	nops := rapid.IntRange(4, maxOps).Draw(t, "nops")
 	early := []string{"create", "create", "patch", "patch", "patch", "update", "switch"}
 	late := []string{"create", "update", "update", "update", "update", "delete", "patch", "patch", "switch", "switch", "switch", "switch"}
 	if c.Two {
